@@ -42,6 +42,7 @@ NORMALISATIONS = [
     '`match E { b".." => X, .., _ => Z }` on a slice becomes an if / else-if chain generated from the literals',
     '`matches!(E, b".." | b"..")` on a slice is expanded to length + element comparisons generated from the literals (Verus mis-encodes byte-string patterns)',
     'a `const NAME: T = e;` item inside a function body becomes `let NAME: T = e;` (Verus gives body-local consts spec mode)',
+    '`//@ drops VAR => CALL`: the implicit drop of local VAR is made explicit (CALL inserted before every continue / break / return of its block that does not move VAR, and at the block end)',
     '`//@ inline NAME`: a parameterless non-escaping local closure is inlined at its call sites (calls must be in return position, or of the form `NAME()?` when the closure leaves early only through `?` / fail!, when the closure can leave early; not inside loops / other closures)',
     'comments inside extracted bodies are removed before the rewrites are applied; an escaped dot in a rewrite regex matches with white space around it (rustfmt line wrapping); an invariant written for a loop that no longer exists is skipped (recorded)',
     'the per-unit rewrite table (regex => replacement with expected match count) listed under rewrites',
@@ -184,6 +185,73 @@ def _expand_bytes_matches(body):
     return rx.sub(rep, body)
 
 
+def _explicit_drops(body, var, call, label, log):
+    """`//@ drops VAR => CALL;`: the local VAR has drop glue that matters for the contract (Verus does not model implicit
+    drops).  For every `let [mut] VAR = ..;` the drop is made explicit: CALL is inserted in front of every `continue` / `break`
+    / `return` statement of the binding's block that comes after the binding and does not mention VAR (a statement that
+    mentions it moves it out), and at the end of that block unless its last statement is such an exit or mentions VAR.
+    A `?` after the binding inside that block cannot be elaborated this way -> Undecided."""
+    m = rsrc.mask(body)
+    inserts = []
+    nbind = 0
+    for mm in re.finditer(r'\blet\s+(?:mut\s+)?%s\b' % re.escape(var), m):
+        nbind += 1
+        # end of the binding statement
+        e = mm.end()
+        depth = 0
+        while e < len(m):
+            c = m[e]
+            if c in '([{':
+                depth += 1
+            elif c in ')]}':
+                depth -= 1
+            elif c == ';' and depth == 0:
+                break
+            e += 1
+        e += 1
+        # enclosing block: scan back for the unmatched '{'
+        b = mm.start()
+        depth = 0
+        while b >= 0:
+            c = m[b]
+            if c == '}':
+                depth += 1
+            elif c == '{':
+                if depth == 0:
+                    break
+                depth -= 1
+            b -= 1
+        if b < 0:
+            raise Undecided('%s: drops %s: no enclosing block' % (label, var))
+        end = rsrc.match_close(m, b) - 1          # position of the closing brace
+        scope = m[e:end]
+        if '?' in scope:
+            raise Undecided('%s: drops %s: a `?` follows the binding inside its block' % (label, var))
+        last_stmt_is_exit = False
+        for ex in re.finditer(r'\b(continue|break|return)\b', scope):
+            q = e + ex.start()
+            se = m.find(';', q)
+            stmt = m[q:se if se >= 0 else end]
+            if not re.search(r'\b%s\b' % re.escape(var), stmt):
+                inserts.append(q)
+        tail = scope.rstrip()
+        # the last statement of the block
+        k = max(tail.rfind(';', 0, len(tail) - 1), tail.rfind('}', 0, len(tail) - 1), tail.rfind('{', 0, len(tail) - 1))
+        last = tail[k + 1:] if tail.endswith(';') else tail[k + 1:]
+        if tail.endswith(';'):
+            k2 = max(tail.rfind(';', 0, len(tail) - 1), tail.rfind('}', 0, len(tail) - 1))
+            last = tail[k2 + 1:]
+        if not re.match(r'\s*(continue|break|return)\b', last) and not re.search(r'\b%s\b' % re.escape(var), last):
+            inserts.append(end)
+    if nbind == 0:
+        raise Undecided('%s: drops %s: no such binding' % (label, var))
+    out = body
+    for q in sorted(set(inserts), reverse=True):
+        out = out[:q] + call + '; ' + out[q:]
+    log.append({'in': label, 'explicit_drops': var, 'call': call, 'bindings': nbind, 'inserted': len(set(inserts))})
+    return out
+
+
 def _subst_binds(repl, binds):
     for k, v in binds.items():
         repl = repl.replace('$' + k, v.replace('\\', '\\\\'))
@@ -289,6 +357,7 @@ class FnBlock:
         self.loops = {}
         self.forghost = {}
         self.inline = []
+        self.drops = []
 
 
 def expand(template_path, repo=REPO):
@@ -375,6 +444,12 @@ def expand(template_path, repo=REPO):
                 elif t_.startswith('//@ inline '):
                     fb.inline.append(t_.split()[2])
                     cur = None
+                elif t_.startswith('//@ drops '):
+                    mm = re.match(r'//@ drops (\w+)\s+=>\s+(.*)$', t_)
+                    if not mm:
+                        raise Undecided('bad drops directive: %r' % t_)
+                    fb.drops.append((mm.group(1), mm.group(2)))
+                    cur = None
                 elif t_ == '//@ spec':
                     cur = fb.spec
                 elif t_.startswith('//@ loop '):
@@ -455,6 +530,8 @@ def _emit_fn(fb, src, out, meta):
     body = re.sub(r'(?m)^[ \t]*#\[(inline|allow|cfg_attr|deny)[^\]]*\]\s*\n', '', body)
     for nm in fb.inline:
         body = _inline_closure(body, nm, label, meta['rewrites'])
+    for (var, call) in fb.drops:
+        body = _explicit_drops(body, var, call, label, meta['rewrites'])
     body = _apply_rw(body, [(c, rx, _subst_binds(rp, meta['binds'])) for (c, rx, rp) in fb.rw], label, meta['rewrites'])
     # --- splice loop contracts (from the last loop to the first so offsets stay valid)
     if fb.loops or fb.forghost:
@@ -517,7 +594,7 @@ def _parse_fn_blocks(template_path):
                 t_ = lines[i].strip()
                 if t_.startswith('//@ sig '):
                     fb.sig_rw.append(_parse_rw(t_[len('//@ sig '):])); cur = None
-                elif t_.startswith('//@ rw ') or t_.startswith('//@ inline '):
+                elif t_.startswith('//@ rw ') or t_.startswith('//@ inline ') or t_.startswith('//@ drops '):
                     cur = None
                 elif t_ == '//@ spec':
                     cur = fb.spec
@@ -632,7 +709,7 @@ def run_unit(unit_dir, workdir, tier='quick', rlimit=None, repo=REPO, extra_args
         cmd += extra_args
     res['checker_cmd'] = ' '.join(cmd)
     try:
-        p = subprocess.run(cmd, capture_output=True, text=True, cwd=workdir, timeout=cfg.get('timeout_s', 600))
+        p = subprocess.run(cmd, capture_output=True, text=True, cwd=workdir, timeout=cfg.get('timeout_s', 1500))
     except subprocess.TimeoutExpired:
         res.update(status='undecided', reason='verus timeout', wall_s=time.time() - t0)
         return res
